@@ -402,6 +402,15 @@ func runC06(cfg *Config) *Report {
 				}
 			}
 			ro := runOnce(g, sc, limit, tmo)
+			// a slow machine is not a lost wake-up: before a missing answer / a missing close is reported, the run is repeated
+			// with a generous limit
+			retry := func() {
+				rep.hist("retried after a timeout")
+				ro = runOnce(g, sc, limit, 4*tmo)
+			}
+			if finite && ro.how == "timeout" {
+				retry()
+			}
 			rep.hist("end=" + ro.how)
 			if k == 0 {
 				first = ro
@@ -435,7 +444,10 @@ func runC06(cfg *Config) *Report {
 					}
 				}
 				if ro.how == "timeout" && len(ref2) >= 3 {
-					rep.violate(i, "answers-not-delivered", desc, fmt.Sprintf("%s: only %d of the first 3 answers arrived in 2s although the formula has at least %d", sc, len(ro.shows), len(ref2)))
+					retry()
+				}
+				if ro.how == "timeout" && len(ref2) >= 3 {
+					rep.violate(i, "answers-not-delivered", desc, fmt.Sprintf("%s: only %d of the first 3 answers arrived in 2s, and again in 8s, although the formula has at least %d", sc, len(ro.shows), len(ref2)))
 				}
 			}
 		}
